@@ -175,7 +175,7 @@ Theorem f1_accept_complete s :
   exists k cand, In k (keys_of fb) /\ decode_key fb k = Some cand /\ accepts fb cand = true /\
                  tseq_of_run fb cand = s.
 Proof.
-  intros He Hv. destruct (f2_accept_complete fb H2 s f1_enumerates He Hv) as (k & cand & H).
+  intros He Hv. destruct (f2_accept_complete fb H2 s He Hv) as (k & cand & H).
   exists k, cand. rewrite <- frag1_cand_seq. exact H.
 Qed.
 
@@ -190,7 +190,7 @@ Theorem f1_accepted_exact :
   NoDup (map (cand_tseq fb) (accepted_keys fb)) /\
   (forall s, In s (map (cand_tseq fb) (accepted_keys fb)) <-> valid_b S0 s = true).
 Proof.
-  rewrite <- (map_ext _ _ frag1_cand_fseq). apply (f2_accepted_exact fb H2 f1_enumerates).
+  rewrite <- (map_ext _ _ frag1_cand_fseq). apply (f2_accepted_exact fb H2).
 Qed.
 
 (** without a rejecting constraint every key is accepted *)
